@@ -9,6 +9,10 @@ import os
 from harness import common as C
 
 
+class _ListSub(list):
+    pass
+
+
 def schema_positions(version_dir):
     """[(file, path, [property names])] for every object position of every schema file,
     definitions included -- read straight from the JSON files, independent of the translator."""
@@ -137,13 +141,36 @@ def oracle(rep):
                         ("no-leaves", thin(doc, lambda i, k: False)), ("even-leaves", thin(doc, lambda i, k: i % 2 == 0)),
                         ("multi-word-leaves", thin(doc, lambda i, k: k != k.lower()))] + [
                             ("single-word-names-in-the-upper-%d-levels" % d, upper(doc, d)) for d in (1, 2, 3, 4)]
+
+            def subclassed(x, top=True):
+                """the same document held in mapping / sequence SUBCLASSES below the top level (OrderedDict from
+                json.loads(object_pairs_hook=...), list subclasses of application frameworks)"""
+                import collections
+                if isinstance(x, dict):
+                    items = [(k, subclassed(sub, False)) for k, sub in x.items()]
+                    return dict(items) if top else collections.OrderedDict(items)
+                if isinstance(x, list):
+                    return _ListSub(subclassed(sub, False) for sub in x)
+                return x
+
+            def reversed_order(x):
+                if isinstance(x, dict):
+                    return {k: reversed_order(sub) for k, sub in reversed(list(x.items()))}
+                if isinstance(x, list):
+                    return [reversed_order(sub) for sub in x]
+                return x
+            variants += [("mapping-subclasses", doc), ("members-in-reverse-order", reversed_order(doc))]
             for (vname, doc) in variants:
-                if vname != "full" and doc == variants[0][1]:
+                if vname not in ("full", "mapping-subclasses") and doc == variants[0][1]:
                   continue
                 n_docs += 1
                 rep.count("doc:%s:%s:%s" % (v, fn, vname))
-                sn = camel_to_snake_case(doc)
-                back = snake_to_camel_case(sn)
+                if vname == "mapping-subclasses":
+                    sn = camel_to_snake_case(subclassed(doc))
+                    back = snake_to_camel_case(subclassed(sn))
+                else:
+                    sn = camel_to_snake_case(doc)
+                    back = snake_to_camel_case(sn)
                 if vname != "full":
                   fn = fn.split(" ")[0] + " (%s)" % vname
                 a, b = dict(keys_at(doc)), {}
